@@ -293,6 +293,8 @@ RULES = [("revocation-table", rule_revocation_table), ("rights-monotone", rule_r
 # "remembers exactly the earlier positions" is about keys: the key recorded for a position must be the key of that position
 # (C04 pairing rules), also after the make/unmake probes of move generation
 RULES += engine.premise_rules("c04", ["piece-pair", "turn-pair", "ep-pair", "castle-pair", "castle-revert"])
+# the bookkeeping reads the move's flags: the move record carries what the generator put into it
+RULES += engine.premise_rules("c01", ["ply-builder"])
 
 
 def run(tier):
